@@ -10,7 +10,7 @@ use crate::storage::{canon, Cell};
 use crate::targets::*;
 use crate::util::*;
 use nuts_rs::verif_hooks::{arm_schedule, take_events, ChainStorage, StatsDims, StorageConfig, TraceStorage};
-use nuts_rs::{Chain, CpuMath, DiagNutsSettings, HashMapConfig, HashMapValue, Model, Progress, Sampler, SamplerWaitResult, Settings, Storable, Value};
+use nuts_rs::{Chain, CpuMath, DiagMclmcSettings, DiagNutsSettings, LowRankNutsSettings, HashMapConfig, HashMapValue, Model, Progress, Sampler, SamplerWaitResult, Settings, Storable, Value};
 use rand::rngs::ChaCha8Rng;
 use rand::{Rng, RngExt, SeedableRng};
 use serde_json::json;
@@ -59,8 +59,8 @@ impl Model for TModel {
 }
 
 /// sequential replay of chain `chain` exactly as `ChainProcess::start` sets it up
-pub fn sequential(model: &TModel, settings: &DiagNutsSettings, chain: u64) -> Result<(BTreeMap<String, Vec<Cell>>, BTreeMap<String, Vec<Cell>>), String> {
-    let mut rng = ChaCha8Rng::seed_from_u64(settings.seed);
+pub fn sequential<S: Settings>(model: &TModel, settings: &S, chain: u64) -> Result<(BTreeMap<String, Vec<Cell>>, BTreeMap<String, Vec<Cell>>), String> {
+    let mut rng = ChaCha8Rng::seed_from_u64(settings.seed());
     rng.set_stream(chain + 1);
     let math = model.math(&mut rng).map_err(|e| e.to_string())?;
     let dim = model.dim;
@@ -71,7 +71,7 @@ pub fn sequential(model: &TModel, settings: &DiagNutsSettings, chain: u64) -> Re
     if !ok { return Err("init failed".into()); }
     let mut stats_out: BTreeMap<String, Vec<Cell>> = BTreeMap::new();
     let mut draws_out: BTreeMap<String, Vec<Cell>> = BTreeMap::new();
-    for _ in 0..(settings.num_tune + settings.num_draws) {
+    for _ in 0..(settings.hint_num_tune() + settings.hint_num_draws()) {
         let (_p, mut exp, mut stats, _info) = sampler.expanded_draw().map_err(|e| e.to_string())?;
         let dims = { let m = sampler.math(); StatsDims::from(&*m) };
         for (n, v) in stats.get_all(&dims) { if n != "draw" && n != "chain" { let e = stats_out.entry(n.to_string()).or_default(); if let Some(v) = v { e.extend(canon(&v)); } } }
@@ -119,11 +119,21 @@ impl ChainStorage for FailingChain {
 }
 
 #[derive(Clone, Debug)]
-pub struct Cfg { pub seed: u64, pub sched: u64, pub num_chains: usize, pub num_cores: usize, pub num_tune: u64, pub num_draws: u64, pub dim: usize, pub script: Vec<(u8, u64)>, pub end_abort: bool, pub failure: Failure }
+pub struct Cfg { pub gen_seed: u64, pub gen_tier: String, pub preset: u8, pub seed: u64, pub sched: u64, pub num_chains: usize, pub num_cores: usize, pub num_tune: u64, pub num_draws: u64, pub dim: usize, pub script: Vec<(u8, u64)>, pub end_abort: bool, pub failure: Failure }
 
 impl Cfg {
-    pub fn to_json(&self) -> serde_json::Value { json!({"seed": self.seed, "sched": self.sched, "num_chains": self.num_chains, "num_cores": self.num_cores, "num_tune": self.num_tune, "num_draws": self.num_draws, "dim": self.dim, "script": self.script, "end_abort": self.end_abort, "failure": format!("{:?}", self.failure)}) }
-    fn settings(&self) -> DiagNutsSettings { let mut s = DiagNutsSettings::default(); s.num_tune = self.num_tune; s.num_draws = self.num_draws; s.num_chains = self.num_chains; s.seed = self.seed; s.maxdepth = 4; s }
+    pub fn to_json(&self) -> serde_json::Value { json!({"gen_seed": self.gen_seed.to_string(), "gen_tier": self.gen_tier, "preset": self.preset, "seed": self.seed, "sched": self.sched, "num_chains": self.num_chains, "num_cores": self.num_cores, "num_tune": self.num_tune, "num_draws": self.num_draws, "dim": self.dim, "script": self.script, "end_abort": self.end_abort, "failure": format!("{:?}", self.failure)}) }
+}
+
+/// run `$body` with `$s` bound to the settings of the configuration's preset (Diag NUTS, LowRank NUTS, Diag MCLMC)
+macro_rules! with_settings {
+    ($cfg:expr, $s:ident => $body:expr) => {
+        match $cfg.preset {
+            0 => { let mut $s = DiagNutsSettings::default(); $s.num_tune = $cfg.num_tune; $s.num_draws = $cfg.num_draws; $s.num_chains = $cfg.num_chains; $s.seed = $cfg.seed; $s.maxdepth = 4; $body }
+            1 => { let mut $s = LowRankNutsSettings::default(); $s.num_tune = $cfg.num_tune; $s.num_draws = $cfg.num_draws; $s.num_chains = $cfg.num_chains; $s.seed = $cfg.seed; $s.maxdepth = 4; $body }
+            _ => { let mut $s = DiagMclmcSettings::default(); $s.num_tune = $cfg.num_tune; $s.num_draws = $cfg.num_draws; $s.num_chains = $cfg.num_chains; $s.seed = $cfg.seed; $s.step_size = 0.4; $s.momentum_decoherence_length = 2.0; $body }
+        }
+    };
 }
 
 pub struct RunOut { pub result: String, pub traces: Option<Vec<(BTreeMap<String, Vec<Cell>>, BTreeMap<String, Vec<Cell>>)>>, pub events: Vec<(u64, u8, u64)>, pub pause_obs: Vec<(Vec<usize>, Vec<usize>, Vec<usize>, usize)>, pub final_progress: Option<Vec<(usize, usize, usize, usize)>>, pub hang: bool, pub api_errors: Vec<String> }
@@ -131,12 +141,20 @@ pub struct RunOut { pub result: String, pub traces: Option<Vec<(BTreeMap<String,
 static RUN_LOCK: std::sync::Mutex<()> = std::sync::Mutex::new(());
 
 /// drive one parallel run with the scripted commands (op, delay µs): 0 pause, 1 resume, 2 progress, 3 flush, 4 inspect
-pub fn run<SC>(cfg: &Cfg, sc: SC) -> RunOut
-where SC: StorageConfig + 'static, SC::Storage: TraceStorage<Finalized = Vec<nuts_rs::verif_hooks::HashMapResultAlias>> {
+type Maps = Vec<(BTreeMap<String, Vec<Cell>>, BTreeMap<String, Vec<Cell>>)>;
+
+pub fn hashmap_maps(v: Vec<nuts_rs::verif_hooks::HashMapResultAlias>) -> Maps {
+    v.into_iter().map(|r| (r.stats.iter().map(|(k, v)| (k.clone(), hm_cells(v))).collect(), r.draws.iter().map(|(k, v)| (k.clone(), hm_cells(v))).collect())).collect()
+}
+pub fn arrow_maps(v: Vec<nuts_rs::ArrowTrace>) -> Maps {
+    v.iter().map(|t| (crate::storage::arrow_batch_cells(&t.sample_stats), crate::storage::arrow_batch_cells(&t.posterior))).collect()
+}
+
+pub fn run<S, SC>(cfg: &Cfg, settings: S, sc: SC, to_traces: fn(<SC::Storage as TraceStorage>::Finalized) -> Maps) -> RunOut
+where S: Settings + 'static, SC: StorageConfig + 'static, <SC::Storage as TraceStorage>::Finalized: Send + 'static {
     let _g = RUN_LOCK.lock().unwrap();
     arm_schedule(cfg.sched);
     let model = TModel { dim: cfg.dim, seed: cfg.seed, failure: cfg.failure.clone(), slow_chain: None };
-    let settings = cfg.settings();
     let cfg2 = cfg.clone();
     let done = Arc::new(AtomicU64::new(0));
     let done2 = done.clone();
@@ -162,7 +180,6 @@ where SC: StorageConfig + 'static, SC::Storage: TraceStorage<Finalized = Vec<nut
                 };
                 if let Err(e) = r { out.api_errors.push(format!("op {op}: {e}")); }
             }
-            let to_traces = |v: Vec<nuts_rs::verif_hooks::HashMapResultAlias>| v.into_iter().map(|r| (r.stats.iter().map(|(k, v)| (k.clone(), hm_cells(v))).collect(), r.draws.iter().map(|(k, v)| (k.clone(), hm_cells(v))).collect())).collect();
             if cfg2.end_abort {
                 out.final_progress = sampler.progress().ok().map(|p| p.iter().map(|c| (c.finished_draws, c.divergences, c.total_num_steps, c.total_draws)).collect());
                 match sampler.abort() { Ok((None, t)) => { out.result = "abort_ok".into(); out.traces = Some(to_traces(t)); } Ok((Some(e), t)) => { out.result = format!("abort_err:{e:#}"); out.traces = Some(to_traces(t)); } Err(e) => out.result = format!("abort_err:{e:#}") }
@@ -222,7 +239,7 @@ pub fn gen_cfg(seed: u64, case: u64, tier: &str, mode: u8) -> Cfg {
             _ => Failure::RecoverableOnly { chain, period: 5 + r.below(20) },
         }
     } else { Failure::None };
-    Cfg { seed: r.next() | 1, sched: r.next() | 1, num_chains, num_cores, num_tune, num_draws, dim: 2 + r.below(3) as usize, script, end_abort: match mode { 1 => case % 3 == 0, 3 => case % 2 == 0, _ => false }, failure }
+    Cfg { gen_seed: seed, gen_tier: tier.to_string(), preset: match mode { 3 => 0, _ => (case % 3) as u8 }, seed: r.next() | 1, sched: r.next() | 1, num_chains, num_cores, num_tune, num_draws, dim: 2 + r.below(3) as usize, script, end_abort: match mode { 1 => case % 3 == 0, 3 => case % 2 == 0, _ => false }, failure }
 }
 
 fn emit_chain_records(cases: &mut Cases, case: u64, cfg: &Cfg, events: &[(u64, u8, u64)]) {
@@ -236,7 +253,13 @@ fn emit_chain_records(cases: &mut Cases, case: u64, cfg: &Cfg, events: &[(u64, u
 }
 
 pub fn check_case(cfg: &Cfg, mode: u8, case: u64, cases: &mut Cases, rep: &mut Report, prop: &str) {
-    let out = match &cfg.failure { Failure::Storage { chain, record } => run(cfg, FailingConfig { chain: *chain, record: *record }), _ => run(cfg, HashMapConfig::new()) };
+    let out = match &cfg.failure {
+        Failure::Storage { chain, record } => with_settings!(cfg, s => run(cfg, s, FailingConfig { chain: *chain, record: *record }, hashmap_maps)),
+        // C10-C12: alternate the storage backend behind the parallel sampler (HashMap / Arrow)
+        _ if mode != 3 && case % 2 == 1 => with_settings!(cfg, s => run(cfg, s, nuts_rs::ArrowConfig::default(), arrow_maps)),
+        _ => with_settings!(cfg, s => run(cfg, s, HashMapConfig::new(), hashmap_maps)) };
+    rep.hit(if matches!(cfg.failure, Failure::Storage { .. }) { "backend.failing" } else if mode != 3 && case % 2 == 1 { "backend.arrow" } else { "backend.hashmap" });
+    rep.hit(&format!("preset{}", cfg.preset));
     rep.evaluations += 1;
     rep.hit(&format!("result.{}", out.result.split(':').next().unwrap_or("")));
     rep.hit(&format!("cores{}_chains{}", cfg.num_cores, cfg.num_chains));
@@ -263,11 +286,10 @@ pub fn check_case(cfg: &Cfg, mode: u8, case: u64, cases: &mut Cases, rep: &mut R
     for e in &out.api_errors { rep.violation("ctl.api_error", &format!("a control call failed: {e}"), replay.clone()); }
     let Some(traces) = &out.traces else { rep.violation("ctl.no_trace", "no trace returned", replay.clone()); return; };
     let model = TModel { dim: cfg.dim, seed: cfg.seed, failure: cfg.failure.clone(), slow_chain: None };
-    let settings = cfg.settings();
     if traces.len() != cfg.num_chains { rep.violation("ctl.trace_count", &format!("{} chain traces for {} chains", traces.len(), cfg.num_chains), replay.clone()); return; }
     let mut lens = vec![];
     for (c, (st, dr)) in traces.iter().enumerate() {
-        let (sst, sdr) = match sequential(&model, &settings, c as u64) { Ok(x) => x, Err(e) => { rep.notes.push(format!("sequential replay failed: {e}")); return; } };
+        let (sst, sdr) = match with_settings!(cfg, s => sequential(&model, &s, c as u64)) { Ok(x) => x, Err(e) => { rep.notes.push(format!("sequential replay failed: {e}")); return; } };
         let n_rec = st.get("logp").map(|v| v.len()).unwrap_or(0);
         lens.push(n_rec);
         for (name, seq) in sst.iter().chain(sdr.iter()) {
@@ -315,8 +337,9 @@ pub fn replay(v: &serde_json::Value) -> bool {
     let mode = v["mode"].as_u64().unwrap() as u8;
     let case = v["case"].as_u64().unwrap();
     // the configuration is a deterministic function of (seed, case, tier, mode); the replay carries it for the reader
-    let seed = std::env::var("VERIF_SEED").ok().and_then(|s| s.parse().ok()).unwrap_or(0);
-    let cfg = gen_cfg(seed, case, "quick", mode);
+    let seed = v["cfg"]["gen_seed"].as_str().and_then(|s| s.parse().ok()).unwrap_or(0);
+    let tier = v["cfg"]["gen_tier"].as_str().unwrap_or("quick").to_string();
+    let cfg = gen_cfg(seed, case, &tier, mode);
     let mut cases = Cases::new();
     let mut rep = Report::new("replay");
     check_case(&cfg, mode, case, &mut cases, &mut rep, "replay");
